@@ -656,7 +656,8 @@ func explorePrio(sc sched.Scenario, nt, budget int, sd int64) int {
 		onStep, finish := sc(s)
 		lastT := 0
 		lastRan := map[int]int{}
-		nstep := 0
+		nstep, progressAt := 0, 0
+		stuck := func(label string) bool { return label == "wait" || strings.HasSuffix(label, ":lock") }
 		res := s.Run(func(step int, elig []*sched.Thread) int {
 			if cps[step] && lastT != 0 {
 				for i, t := range pr {
@@ -674,10 +675,10 @@ func explorePrio(sc sched.Scenario, nt, budget int, sd int64) int {
 						rank = j
 					}
 				}
-				// a thread that just failed to take a lock, or waits for another one's progress, lets the others
-				// make two steps before it tries again (two such threads would otherwise keep each other
-				// "eligible" for ever while the thread they wait for never runs)
-				wait := (t.Label == "wait" || strings.HasSuffix(t.Label, ":lock")) && step-lastRan[t.ID] < 3
+				// a thread that failed to take a lock, or waits for another one's progress, tries again only
+				// after some thread has made real progress since (several such threads would otherwise keep
+				// each other "eligible" for ever while the thread they depend on never runs)
+				wait := stuck(t.Label) && progressAt <= lastRan[t.ID]
 				if (bestWait && !wait) || (bestWait == wait && rank < bestRank) {
 					best, bestRank, bestWait = i, rank, wait
 				}
@@ -685,8 +686,11 @@ func explorePrio(sc sched.Scenario, nt, budget int, sd int64) int {
 			return best
 		}, -1, func(st sched.Step) {
 			lastT = st.Thread
-			lastRan[st.Thread] = nstep
 			nstep++
+			lastRan[st.Thread] = nstep
+			if !stuck(st.To) {
+				progressAt = nstep + 1
+			}
 			onStep(st)
 		})
 		finish(res)
